@@ -304,7 +304,9 @@ static int print_f(void (*printchar_handler)(void *d, int c),
             with_exp = 1;
     }
     fp = with_exp ? fp : MODF(r, &ip);
-    precision -= (int)(is_shortened ? ceill(LOG10(ip)) + (ip != 0.0L) : 0);
+    /* %g: `precision` significant digits, one of them (exponent form) or
+       ep + 1 of them (ep >= 0) in front of the point */
+    precision -= is_shortened ? with_exp ? 1 : (int)ep + 1 : 0;
     for (; (sign_count < precision) && (sign_count < PRINT_F_FRAC_MAX) &&
            (FMOD(fp, 1.0L) != 0.0L);
          ++sign_count)
